@@ -50,6 +50,9 @@ func (d *Delete) Unmarshal(b []byte) error {
 		if len(b) < (4 + (int(spiSize) * int(numberOfSPI))) {
 			return errors.Errorf("Delete: No Sufficient bytes to get SPIs according to the length specified in header")
 		}
+		if numberOfSPI > 0 && spiSize != 4 {
+			return errors.Errorf("Delete: SPI size %d is not supported, SPIs are kept as 4-octet values", spiSize)
+		}
 
 		d.ProtocolID = b[0]
 		d.SPISize = spiSize
